@@ -134,7 +134,27 @@ class Effects:
                     out.setdefault(p, set()).update(type_names(g.returns))
         return out
 
+    def expand_aliases(self, names, depth=0):
+        """Replace module-level type aliases (TraceState = Union[...], ExactOrShape = ...) by the names they stand for."""
+        out = set()
+        for n in names:
+            if n in self.repo.class_index or depth > 3:
+                out.add(n)
+                continue
+            hit = False
+            for m in self.repo.modules.values():
+                if n in m.assigns and n not in m.classes:
+                    sub = set(type_names(m.assigns[n])) - {n}
+                    if sub:
+                        out |= self.expand_aliases(sub, depth + 1)
+                        hit = True
+                        break
+            if not hit:
+                out.add(n)
+        return out
+
     def classes_named(self, names, ctx_mod):
+        names = self.expand_aliases(set(names))
         out = []
         for n in names:
             c = self.repo.resolve_class(ctx_mod, n)
